@@ -267,12 +267,21 @@ func (ps *propertyServer) findPrevAndOlderProperties(nodeProperties map[string][
 				olderProperties = append(olderProperties, p)
 			}
 			// update the prov property
-			if prevPropertyWithMetadata == nil || p.Metadata.ModRevision > prevPropertyWithMetadata.Metadata.ModRevision {
+			if prevPropertyWithMetadata == nil || newerThan(p, prevPropertyWithMetadata) {
 				prevPropertyWithMetadata = p
 			}
 		}
 	}
 	return prevPropertyWithMetadata, olderProperties
+}
+
+// newerThan orders the states of a property the way shard.repair does: by modification revision first;
+// on the same revision a tombstone is newer than the live document and the later tombstone wins.
+func newerThan(p, q *propertyWithMetadata) bool {
+	if p.Metadata.ModRevision != q.Metadata.ModRevision {
+		return p.Metadata.ModRevision > q.Metadata.ModRevision
+	}
+	return p.deletedTime > q.deletedTime
 }
 
 func (ps *propertyServer) mergeProperty(ctx context.Context, now time.Time, shardID uint64, nodes []string,
@@ -545,6 +554,10 @@ func (ps *propertyServer) sortedQueryWithDedup(
 		if existingCount, seen := seenIDs[entity]; seen {
 			// Same modRevision - accumulate node
 			if p.Metadata.ModRevision == existingCount.Metadata.ModRevision {
+				if newerThan(p, existingCount.propertyWithMetadata) {
+					// a replica that missed the deletion must not bring the property back
+					existingCount.deletedTime = p.deletedTime
+				}
 				existingCount.addExistNode(p.node)
 				continue
 			}
@@ -685,6 +698,10 @@ func (ps *propertyServer) simpleDedupWithoutSort(
 				case existing.Metadata.ModRevision < p.Metadata.ModRevision:
 					seenIDs[entity] = newPropertyWithCounts(p, entity, n)
 				case existing.Metadata.ModRevision == p.Metadata.ModRevision:
+					if newerThan(p, existing.propertyWithMetadata) {
+						// a replica that missed the deletion must not bring the property back
+						existing.deletedTime = p.deletedTime
+					}
 					existing.addExistNode(n)
 				}
 			} else {
